@@ -147,7 +147,8 @@ impl<T: Deref<Target = str>> Relativizer<T> {
                 }
             }
             if self.slashes.is_empty() {
-                if iri[self.pseudoroot - 1..].starts_with('/')
+                // NB: pseudoroot - 1 may not be a character boundary (authority ending with a non-ASCII character)
+                if iri.as_bytes()[self.pseudoroot - 1] == b'/'
                     && (iri.len() == self.pseudoroot
                         || iri[self.pseudoroot..].starts_with(['?', '#']))
                 {
